@@ -14,16 +14,41 @@ pub const REF_BUDGET: u64 = 3_000_000;
 
 /// one exact-value comparison at depth d
 pub fn check_value(sess: &mut dyn Driver, p: &Pos, d: u32, rep: &mut Report, with_position: bool) {
+    let _ = with_position;
+    check_value_given_as(sess, p, d, rep, None);
+}
+
+/// The same comparison with the position handed over as `position fen START moves ...` — a game
+/// history in which no position occurs twice. At depth <= 3 no line can then reach a third
+/// occurrence (at most one in the history, one on the line), so the exact value is the plain minimax
+/// value of the end position: a history is no licence to value anything as a draw.
+pub fn check_value_with_history(sess: &mut dyn Driver, start: &Pos, moves: &[Mv], d: u32, rep: &mut Report) {
+    let mut cur = start.clone();
+    let mut keys = vec![cur.key()];
+    for m in moves {
+        cur = cur.make(*m);
+        if keys.contains(&cur.key()) { return; }
+        keys.push(cur.key());
+    }
+    if cur.half + 4 >= 100 || cur.legal_moves().is_empty() { return; }
+    rep.count("value_searches_with_a_non_repeating_history");
+    let reversible_tail = moves.iter().rev().take(4).count() == 4 && cur.half >= 4;
+    if reversible_tail { rep.count("value_searches_with_history_whose_last_four_plies_are_reversible"); }
+    let ms: Vec<String> = moves.iter().map(|m| m.uci()).collect();
+    check_value_given_as(sess, &cur, d, rep, Some((start.to_fen(), ms)));
+}
+
+fn check_value_given_as(sess: &mut dyn Driver, p: &Pos, d: u32, rep: &mut Report, given: Option<(String, Vec<String>)>) {
     let fen = p.to_fen();
-    let replay = json!({"kind":"c08","fen":fen,"depth":d});
+    let replay = match &given { None => json!({"kind":"c08","fen":fen,"depth":d}), Some((s, ms)) => json!({"kind":"c08-history","fen":s,"moves":ms,"depth":d}) };
     let legal = p.legal_moves();
     if legal.is_empty() { return; }
     let (want, ref_nodes) = match reference_value(p, d, REF_BUDGET) {
         Some(x) => x,
         None => { rep.inconclusive("reference search exceeded its node budget"); return; }
     };
-    let _ = with_position;
-    let out = match search(sess, Some((&Some(fen.clone()), &[])), &GoSpec::depth(d as u64)) {
+    let (cmd_fen, cmd_moves) = match &given { None => (fen.clone(), Vec::new()), Some((s, ms)) => (s.clone(), ms.clone()) };
+    let out = match search(sess, Some((&Some(cmd_fen), &cmd_moves[..])), &GoSpec::depth(d as u64)) {
         Ok(o) => o,
         Err(e) if e.starts_with("watchdog") => {
             rep.inconclusive("watchdog fired");
@@ -173,6 +198,25 @@ pub fn run(args: &monlib::Args, rep: &mut Report) {
                 rep.count("unrelated_searches_interleaved");
             }
         }
+        // ... a search under a (tiny) time budget: nothing of it may limit the fixed-depth searches that follow
+        if rng.gen_range(0..12) == 0 {
+            let q = starts.next(&mut rng);
+            if !q.legal_moves().is_empty() {
+                let go = match rng.gen_range(0..3) { 0 => GoSpec { movetime: Some(*[0u64, 1, 3].get(rng.gen_range(0..3)).unwrap()), ..Default::default() }, 1 => GoSpec { wtime: Some(1), btime: Some(1), ..Default::default() }, _ => GoSpec { wtime: Some(30), btime: Some(30), winc: Some(1), binc: Some(1), ..Default::default() } };
+                let _ = search(&mut sess, Some((&Some(q.to_fen()), &[])), &go);
+                rep.count("timed_searches_interleaved");
+            }
+        }
+        if rng.gen_range(0..5) == 0 {
+            let s = starts.next(&mut rng);
+            let len = rng.gen_range(2..24);
+            let policy = if rng.gen_bool(0.6) { gen::Policy::Shuffle } else { gen::POLICIES[rng.gen_range(0..3)] };
+            let (_, ms) = gen::walk(&mut rng, &s, policy, len);
+            if !ms.is_empty() {
+                let d = rng.gen_range(1..=3);
+                check_value_with_history(&mut sess, &s, &ms, d, rep);
+            }
+        }
         let kind = rng.gen_range(0..10);
         if kind < 2 {
             let s = starts.next(&mut rng);
@@ -210,6 +254,9 @@ pub fn replay(case: &monlib::Value, rep: &mut Report) {
     let mut sess = InProc::new();
     if case["kind"].as_str() == Some("c08-mate") {
         check_forced_mate(&mut sess, &p, rep);
+    } else if case["kind"].as_str() == Some("c08-history") {
+        let ms: Vec<Mv> = case["moves"].as_array().map(|a| a.iter().filter_map(|v| v.as_str().and_then(Mv::from_uci)).collect()).unwrap_or_default();
+        check_value_with_history(&mut sess, &p, &ms, case["depth"].as_u64().unwrap_or(2) as u32, rep);
     } else {
         check_value(&mut sess, &p, case["depth"].as_u64().unwrap_or(2) as u32, rep, true);
     }
